@@ -34,7 +34,7 @@ macro_rules
         first
         | rfl
         | exact ($hc).1 | exact ($hc).2.1 | exact ($hc).2.2.1 | exact ($hc).2.2.2.1
-        | exact ($hc).2.2.2.2.1 | exact ($hc).2.2.2.2.2.1 | exact ($hc).same))
+        | exact ($hc).2.2.2.2.1 | exact ($hc).2.2.2.2.2.1 | exact ($hc).same | assumption))
 
 /-- walk the `match` / `if` / `let` cascade shared by the two sides -/
 macro "walk" : tactic => `(tactic| repeat' (first | simp only [] | split))
@@ -679,8 +679,7 @@ theorem apiAstype_sameC {m₁ m₂ : MapObj} (hc : m₁.SameC m₂) (hv : m₁.B
         | .ok sent' =>
           if (s₂.sp.toList.filter m₁.vc.valid).any (fun x => (convCell src dst x).isNone) then
             .error .inexact
-          else .ok { m₁ with kind := .plain dst, sent := sent', cache := none,
-                            st := (astypeMap m₁.vc s₂ (fun x => (convCell src dst x).getD x) sent') })
+          else .ok { m₁ with kind := .plain dst, sent := sent', cache := none, st := (astypeMap m₁.vc s₂ (fun x => (convCell src dst x).getD x) sent') })
   cases ApiScalar.astypeSrc m₁.kind with
   | none => exact ExR.err _
   | some src =>
@@ -695,5 +694,68 @@ theorem apiAstype_sameC {m₁ m₂ : MapObj} (hc : m₁.SameC m₂) (hv : m₁.B
       · exact ⟨rfl, rfl, rfl, rfl, rfl, rfl,
           C10.same_astype m₁.c m₁.vc ⟨(Kind.plain dst).blank sent', (Kind.plain dst).valid sent'⟩
             _ _ _ hS hv⟩
+
+set_option hygiene false in
+/-- leaves of a storage-returning operation: result stored in place / bound under `r=`; operand
+    stored with its cache reset; world unchanged -/
+macro "st_leaf" : tactic => `(tactic| first
+  | exact SimR.same h _
+  | exact ⟨rfl, h.put_owning _ (hc.with_st hr none) hv⟩
+  | exact ⟨rfl, h.bind _ (hc.with_st hr none)⟩
+  | exact ⟨rfl, h.bind _ (by samec hc)⟩
+  | exact ⟨rfl, h.put_owning _ (by samec hc) hv⟩)
+
+theorem same_opSop (h : w₁.SameW w₂) (g₁ : w₁.Good) (g₂ : w₂.Good) (a : Args)
+    (hnv : a.flag "inplace" = true → NoViewTarget w₁ a) : SimR (opSop w₁ a) (opSop w₂ a) := by
+  unfold opSop
+  refine sim_withMap h g₁ g₂ fun n m₁ m₂ hn e1 e2 hc ok1 ok2 => ?_
+  simp only [hn, hc.kind_eq]
+  split
+  · exact SimR.same h _
+  · rename_i k _
+    cases hin : a.flag "inplace"
+    · simp only [Bool.false_eq_true, if_false, Bool.false_and]
+      rcases (apiScalarOp_sameC hc ok1.2.1.blankInvalid (a.getD "op" "add") k).cases with
+        ⟨r₁, r₂, x1, x2, hr⟩ | ⟨e, x1, x2⟩
+      · rw [x1, x2]; st_leaf
+      · rw [x1, x2]; st_leaf
+    · have hv : m₁.view = none := hnv hin m₁ (by rw [hn]; exact e1)
+      simp only [if_true, Bool.true_and]
+      rcases (apiScalarOp_sameC hc ok1.2.1.blankInvalid (a.getD "op" "add") k).cases with
+        ⟨r₁, r₂, x1, x2, hr⟩ | ⟨e, x1, x2⟩
+      · rw [x1, x2]; st_leaf
+      · rw [x1, x2]
+        walk
+        all_goals st_leaf
+
+theorem same_opMask (h : w₁.SameW w₂) (g₁ : w₁.Good) (g₂ : w₂.Good) (a : Args)
+    (hnv : a.flag "inplace" = true → NoViewTarget w₁ a) : SimR (opMask w₁ a) (opMask w₂ a) := by
+  unfold opMask
+  refine sim_withMap h g₁ g₂ fun n m₁ m₂ hn e1 e2 hc ok1 ok2 => ?_
+  simp only [hn]
+  rcases h.get g₁ g₂ (a.getD "by" "") with ⟨q1, q2⟩ | ⟨k₁, k₂, q1, q2, hk⟩
+  · rw [q1, q2]; exact SimR.same h _
+  · rw [q1, q2]
+    simp only []
+    rcases (apiApplyMask_sameC hc hk ok1.2.1.blankInvalid ((a.get? "bits").bind String.toInt?)
+      ((a.get? "bitarr").bind parseNats)).cases with ⟨r₁, r₂, x1, x2, hr⟩ | ⟨e, x1, x2⟩
+    · rw [x1, x2]
+      cases hin : a.flag "inplace"
+      · simp only [Bool.false_eq_true, if_false]; st_leaf
+      · have hv : m₁.view = none := hnv hin m₁ (by rw [hn]; exact e1)
+        simp only [if_true]; st_leaf
+    · rw [x1, x2]; st_leaf
+
+theorem same_opAstype (h : w₁.SameW w₂) (g₁ : w₁.Good) (g₂ : w₂.Good) (a : Args) :
+    SimR (opAstype w₁ a) (opAstype w₂ a) := by
+  unfold opAstype
+  refine sim_withMap h g₁ g₂ fun n m₁ m₂ hn e1 e2 hc ok1 ok2 => ?_
+  split
+  · rename_i dt sent _ _
+    rcases (apiAstype_sameC hc ok1.2.1.blankInvalid dt sent).cases with
+      ⟨r₁, r₂, x1, x2, hr⟩ | ⟨e, x1, x2⟩
+    · rw [x1, x2]; exact ⟨rfl, h.bind _ hr⟩
+    · rw [x1, x2]; exact SimR.same h _
+  · exact SimR.same h _
 
 end HS
